@@ -278,6 +278,8 @@ class CircuitWorld(World):
                            "optimize": r.choice([None, None, "greedy"]),
                            "reverse": r.random() < 0.3,
                            "rehearse": r.choice([None, None, "tn", True])}
+        if cls in MPS and r.random() < 0.4:
+            op["qopts"] = {"reverse": r.random() < 0.4, "dtype": r.choice([None, "complex128", "complex64"])}
         if kn["interrupts"] and cls in EXACT and r.random() < 0.35:
             op["interrupt_at"] = int(10 ** r.uniform(0.5, 4.3))
         if q == "uni" and c.get("contract") is True:
@@ -326,6 +328,9 @@ class CircuitWorld(World):
             op["contract"] = r.choice(["auto-split-gate", "auto-split-gate", False, True, "split-gate", "swap-split-gate"])
         if cls == "CircuitMPSLazy":
             op["compress_every"] = r.choice([1, 2, 5])
+        if r.random() < 0.2:
+            # a caller-supplied entangled initial state instead of |0...0>
+            op["psi0_seed"] = r.randrange(2**31)
         return op
 
     # ------------------------------------------------------------- model
@@ -352,8 +357,12 @@ class CircuitWorld(World):
     def model_state(self, c):
         """State defined by the circuit's own gate record."""
         N = c["N"]
-        psi = np.zeros(2**N, dtype=complex)
-        psi[0] = 1.0
+        _, psi = self._psi0(c.get("psi0_seed"), N)
+        if psi is None:
+            psi = np.zeros(2**N, dtype=complex)
+            psi[0] = 1.0
+        else:
+            psi = psi.astype(complex)
         for g in c["applied"]:
             U, qs = self.gate_matrix(g, check_unitary=False)
             psi = apply_dense(psi, U, qs, N)
@@ -384,22 +393,34 @@ class CircuitWorld(World):
             raise Skip()
         return self.circs[op["circ"] % len(self.circs)]
 
-    def _op_new(self, op):
+    def _psi0(self, seed, N):
+        """(MPS to hand to the constructor, its dense vector) or (None, None)."""
+        if seed is None:
+            return None, None
+        mps = self.qtn.MPS_rand_state(N, 2, seed=int(seed) % (2**31), dtype="complex128")
+        dense = np.asarray(mps.to_dense()).reshape(-1)
+        return mps, dense
+
+    def _construct(self, cls, N, contract, compress_every, psi0_seed):
         qtn = self.qtn
+        cutoff = 0.0 if self.knobs["cutoff0"] else 1e-10
+        psi0, _ = self._psi0(psi0_seed, N)
+        kw = {"psi0": psi0} if psi0 is not None else {}
+        if cls == "Circuit":
+            return qtn.Circuit(N, gate_opts={"contract": contract if contract is not None else "auto-split-gate"}, **kw)
+        if cls == "CircuitDense":
+            return qtn.CircuitDense(N, **kw)
+        if cls == "CircuitMPS":
+            return qtn.CircuitMPS(N, cutoff=cutoff, **kw)
+        if cls == "CircuitPermMPS":
+            return qtn.CircuitPermMPS(N, cutoff=cutoff, **kw)
+        return qtn.CircuitMPSLazy(N, cutoff=cutoff, compress_every=compress_every, **kw)
+
+    def _op_new(self, op):
         cls = op["cls"]
         N = self.N
-        cutoff = 0.0 if self.knobs["cutoff0"] else 1e-10
-        if cls == "Circuit":
-            f = lambda: qtn.Circuit(N, gate_opts={"contract": op.get("contract", "auto-split-gate")})
-        elif cls == "CircuitDense":
-            f = lambda: qtn.CircuitDense(N)
-        elif cls == "CircuitMPS":
-            f = lambda: qtn.CircuitMPS(N, cutoff=cutoff)
-        elif cls == "CircuitPermMPS":
-            f = lambda: qtn.CircuitPermMPS(N, cutoff=cutoff)
-        else:
-            f = lambda: qtn.CircuitMPSLazy(N, cutoff=cutoff, compress_every=op.get("compress_every", 2))
-        st, obj = self.call(f)
+        st, obj = self.call(lambda: self._construct(cls, N, op.get("contract"), op.get("compress_every", 2),
+                                                    op.get("psi0_seed")))
         if st == "rejected":
             raise Violation("C07/rejected_valid_input", repr(obj))
         if len(self.circs) >= 3:
@@ -407,7 +428,10 @@ class CircuitWorld(World):
             for g in old["gens"]:
                 g["it"].close()
         self.circs.append({"obj": obj, "cls": cls, "N": N, "applied": [], "gens": [],
-                           "contract": op.get("contract"), "compress_every": op.get("compress_every", 2)})
+                           "contract": op.get("contract"), "compress_every": op.get("compress_every", 2),
+                           "psi0_seed": op.get("psi0_seed")})
+        if op.get("psi0_seed") is not None:
+            self.stats.probe("custom_initial_state")
         self.note("new", cls)
 
     def _call_gate(self, c, g, via="apply_gate"):
@@ -534,7 +558,8 @@ class CircuitWorld(World):
                 g["it"].close()
         self.circs.append({"obj": new, "cls": c["cls"], "N": c["N"], "applied": list(c["applied"]), "gens": [],
                            "contract": c.get("contract"), "compress_every": c.get("compress_every", 2),
-                           "named": dict(c.get("named") or {}), "exprs": dict(c.get("exprs") or {})})
+                           "named": dict(c.get("named") or {}), "exprs": dict(c.get("exprs") or {}),
+                           "psi0_seed": c.get("psi0_seed")})
         self.stats.fault("fork")
         self.note("copy")
 
@@ -748,6 +773,12 @@ class CircuitWorld(World):
         def fail(msg):
             raise Violation(tag, f"{msg} [{len(c['applied'])} gates]" + (f" qopts={qo}" if qo else ""))
 
+        mo = (op.get("qopts") or {}) if cls in MPS else {}
+        mkw = {"dtype": mo["dtype"]} if mo.get("dtype") else {}
+        if mo.get("dtype") == "complex64":
+            tol = max(tol, 2e-5)  # the query itself runs in single precision
+        if mo:
+            self.stats.probe("mps_query_with_options")
         qo = (op.get("qopts") or {}) if cls in EXACT else {}
         qkw = {}
         if qo.get("seq") is not None:
@@ -773,7 +804,7 @@ class CircuitWorld(World):
             return thunk
 
         if q == "to_dense":
-            rev = bool(qo.get("reverse"))
+            rev = bool(qo.get("reverse") or mo.get("reverse"))
             want_psi = psi.reshape((2,) * N).transpose(tuple(reversed(range(N)))).reshape(-1) if rev else psi
 
             def judge(v):
@@ -781,7 +812,7 @@ class CircuitWorld(World):
                 if v.shape != want_psi.shape or maxdiff(v, want_psi) > tol:
                     fail(f"max|diff|={maxdiff(v, want_psi) if v.shape == want_psi.shape else 'shape'}")
             if cls in MPS:
-                return (lambda: circ.to_dense()), judge
+                return (lambda: circ.to_dense(reverse=rev, **mkw)), judge
             return rehearsed(lambda **e: circ.to_dense(reverse=rev, **qkw, **e)), judge
         if q == "amplitude":
             b = "".join(str(int(x)) for x in rng.integers(0, 2, size=N))
@@ -791,7 +822,7 @@ class CircuitWorld(World):
                 if not abs(complex(v) - want) <= tol:
                     fail(f"amplitude({b}) = {complex(v)} vs {want}")
             if cls in MPS:
-                return (lambda: circ.amplitude(b)), judge
+                return (lambda: circ.amplitude(b, **mkw)), judge
             return rehearsed(lambda **e: circ.amplitude(b, **qkw, **e)), judge
         if q == "partial_trace":
             keep = list(where)
@@ -806,7 +837,7 @@ class CircuitWorld(World):
                     fail(f"partial_trace({keep}) max|diff|={maxdiff(v, rho) if v.shape == rho.shape else v.shape}")
             arg = keep if len(keep) > 1 or rng.uniform() < 0.5 else keep[0]
             if cls in MPS:
-                return (lambda: circ.partial_trace(arg)), judge
+                return (lambda: circ.partial_trace(arg, **mkw)), judge
             return rehearsed(lambda **e: circ.partial_trace(arg, **qkw, **e)), judge
         if q in ("local_expectation", "local_expectation_list", "local_expectation_dtype"):
             k = len(where)
@@ -850,7 +881,7 @@ class CircuitWorld(World):
                     fail(f"compute_marginal({where}, fix={fix}) max|diff|={maxdiff(v, marg) if v.shape == marg.shape else v.shape}")
             fixarg = {k_: str(v_) if rng.uniform() < 0.5 else v_ for k_, v_ in fix.items()} or None
             if cls in MPS:
-                return (lambda: circ.compute_marginal(tuple(where), fix=fixarg)), judge
+                return (lambda: circ.compute_marginal(tuple(where), fix=fixarg, **mkw)), judge
             return rehearsed(lambda **e: circ.compute_marginal(tuple(where), fix=fixarg, dtype="complex128",
                                                                 simplify_atol=1e-12, **qkw, **e)), judge
         if q == "psi_simplified":
@@ -894,10 +925,13 @@ class CircuitWorld(World):
                     fail(f"uni max|diff|={maxdiff(d, Ufull) if d.shape == Ufull.shape else d.shape}")
             return (lambda: circ.uni), judge
         if q == "fidelity_estimate":
+            err = bool(op["seed"] % 3 == 0)
+
             def judge(v):
-                if not abs(float(v) - 1.0) <= 1e-6:
-                    fail(f"fidelity_estimate() = {float(v)} for an untruncated unitary circuit")
-            return (lambda: circ.fidelity_estimate()), judge
+                v = 1.0 - float(v) if err else float(v)
+                if not abs(v - 1.0) <= 1e-6:
+                    fail(f"{'1 - error' if err else 'fidelity'}_estimate() = {v} for an untruncated unitary circuit")
+            return (lambda: circ.error_estimate() if err else circ.fidelity_estimate()), judge
         raise Skip()
 
     # .. samplers ..................................................................
@@ -943,20 +977,9 @@ class CircuitWorld(World):
     def _replica(self, c):
         """A fresh circuit of the same class and options holding the same
         recorded gates: what the queries are allowed to depend on."""
-        qtn = self.qtn
         cls = c["cls"]
         N = c["N"]
-        cutoff = 0.0 if self.knobs["cutoff0"] else 1e-10
-        if cls == "Circuit":
-            new = qtn.Circuit(N, gate_opts={"contract": c.get("contract") if c.get("contract") is not None else "auto-split-gate"})
-        elif cls == "CircuitDense":
-            new = qtn.CircuitDense(N)
-        elif cls == "CircuitMPS":
-            new = qtn.CircuitMPS(N, cutoff=cutoff)
-        elif cls == "CircuitPermMPS":
-            new = qtn.CircuitPermMPS(N, cutoff=cutoff)
-        else:
-            new = qtn.CircuitMPSLazy(N, cutoff=cutoff, compress_every=c.get("compress_every", 2))
+        new = self._construct(cls, N, c.get("contract"), c.get("compress_every", 2), c.get("psi0_seed"))
         rc = {"obj": new, "cls": cls, "N": N, "applied": [], "gens": []}
         for g in c["applied"]:
             self._call_gate(rc, g)()
